@@ -657,4 +657,28 @@ theorem filter_refine {α : Type} (q r : α → Bool) (l : List α) (s : α) (hq
       simp only [List.filter_cons, hqa, hra] at hq ⊢
       exact ih hq
 
+theorem shortLoop_specs_mem (specs : List TSpec) (negate : Bool) : ∀ (cs : Str) (os : List Occ),
+    shortLoop specs negate cs = .ok os → ∀ o ∈ os, o.spec ∈ specs ∧ o.state = !negate := by
+  intro cs
+  induction cs with
+  | nil => intro os h; simp [shortLoop] at h; subst h; simp
+  | cons c cs ih =>
+    intro os h
+    rw [shortLoop] at h
+    cases hf : findShort specs c with
+    | none => simp [hf] at h
+    | some s =>
+      simp only [hf] at h
+      split at h
+      · simp at h
+      · cases hr : shortLoop specs negate cs with
+        | error e => simp [hr] at h
+        | ok os' =>
+          simp [hr] at h; subst h
+          intro o ho
+          simp at ho
+          rcases ho with rfl | ho
+          · exact ⟨(findShort_some hf).1, rfl⟩
+          · exact ih os' hr o ho
+
 end YashModel.Args.Typeset
